@@ -66,7 +66,11 @@ def cfg_lines(words, builtins):
 TYPE_TAGS = {'pointers', 'references', 'refrefs', 'arrays', 'qualifieds', 'functions', 'funXfers', 'products', 'sums',
              'foralls', 'memberPtrs', 'tors', 'extendeds', 'typeRefs', 'typeXfers'}
 NAME_TAGS = {'ids', 'ops', 'suffixes', 'convs', 'ctors', 'dtors', 'guideIds', 'templateIds'}
-FRESH_TYPE_KINDS = {0, 1, 2, 3, 7}      # class, union, enum, namespace; 7 = a client-built type node at a placed address
+FRESH_TYPE_KINDS = {0, 1, 2, 3, 7, 8, 9}   # class, union, enum, namespace; 7 = a client-built type node at a placed address;
+                                          # 8, 9 = the Product node that IS the type of a growing parameter list / class scope (see LIVE_KINDS)
+LIVE_KINDS = (8, 9)      # client-grown containers: `fresh 8|9` names the container's own type() node -- a Product the Lexicon never unified,
+                         # accepted wherever a Product is (source of a function / forall / tor: compared by node identity) and whose current
+                         # element sequence is a LIVE VIEW a client may hand to get_product / get_sum (`product_live`, `sum_live`)
 PLACED_SLOTS = 48
 
 
@@ -103,6 +107,9 @@ class Spec:
         self.created = 0         # nodes filed so far (hits = requests - created)
         self.by_tag = {}         # tag -> nodes filed in that table, in order of creation
         self.placed = set()      # placement slots taken by client-built nodes
+        self.live = {}           # growing container (its type node) -> the types of its current members
+        self.live_made = {}      # growing container -> tables holding a node first made from its live sequence (that node keeps the view)
+        self.poisoned = set()    # tables holding a node whose borrowed sequence grew afterwards: what they answer is no longer specified
 
     # -- statics
     def stat(self, *k):
@@ -135,6 +142,8 @@ class Spec:
     def is_link(self, h): return h.tag == 'linkages' or (h.tag == 'static' and h.key[1] == 'link')
     def is_cc(self, h): return h.tag == 'conventions' or (h.tag == 'static' and h.key[1] == 'naturalcc')
     def is_xfer(self, h): return h.tag in ('xferLinks', 'xferCCs', 'xfers') or (h.tag == 'static' and h.key[1] == 'naturalxfer')
+    def is_live(self, h): return h.tag == 'fresh' and h.key[2] in LIVE_KINDS
+    def is_product(self, h): return h.tag == 'products' or self.is_live(h)
     def is_node(self, h): return not (self.is_logo(h) or self.is_link(h) or self.is_cc(h) or self.is_xfer(h) or h.tag == 'typeSeqs')
 
     def want(self, pred, h):
@@ -189,7 +198,7 @@ class Spec:
         return self.intern(('linkages', w), (self.logogram(w),))
 
     def function(self, s, t, e, x):
-        self.want(lambda h: h.tag == 'products', s); self.want(self.is_type, t)
+        self.want(self.is_product, s); self.want(self.is_type, t)
         e = self.FALSE() if e is None else self.want(self.is_expr, e)       # omitted throws = the `false` constant
         if x is not None:
             self.want(self.is_xfer, x)
@@ -222,13 +231,23 @@ class Spec:
         if op in ('product_seq', 'product_wh', 'sum_seq', 'sum_wh'):
             for t in a: w(T, t)
             tag = 'products' if op.startswith('product') else 'sums'
+            if tag in self.poisoned: raise IllSorted()
             if op.endswith('_wh'):
                 seq = self.intern(('typeSeqs',) + tuple(a), a)
                 return self.intern((tag,) + tuple(a), (seq,))
             return self.intern((tag,) + tuple(a), ())
-        if op == 'forall': return self.intern(('foralls', w(lambda h: h.tag == 'products', a[0]), w(T, a[1])), a)
+        if op in ('product_live', 'sum_live'):
+            # the sequence handed over is the container's own: its current members' types (the op line repeats them; the probe checks)
+            L, ts = w(self.is_live, a[0]), list(a[1:])
+            tag = 'products' if op.startswith('product') else 'sums'
+            if self.live[L] != ts or tag in self.poisoned: raise IllSorted()
+            before = self.created
+            r = self.intern((tag,) + tuple(ts), ())
+            if self.created > before: self.live_made.setdefault(L, []).append(tag)      # that node keeps referring to the live sequence
+            return r
+        if op == 'forall': return self.intern(('foralls', w(self.is_product, a[0]), w(T, a[1])), a)
         if op == 'ptr_to_member': return self.intern(('memberPtrs', w(T, a[0]), w(T, a[1])), a)
-        if op == 'tor': return self.intern(('tors', w(lambda h: h.tag == 'products', a[0]), w(lambda h: h.tag == 'sums', a[1])), a)
+        if op == 'tor': return self.intern(('tors', w(self.is_product, a[0]), w(lambda h: h.tag == 'sums', a[1])), a)
         if op == 'as_type_id':
             i = w(self.is_ident, a[0])
             if i.tag == 'static' and i.key[2] in self.builtins: return self.stat('builtin', i.key[2])
@@ -276,7 +295,9 @@ class Spec:
             if kind == 5:
                 w(self.is_name, a[1]); w(lambda h: h.tag == 'foralls', a[2])
             self.fresh += 1
-            return self.intern(('fresh', self.fresh, kind), ())
+            r = self.intern(('fresh', self.fresh, kind), ())
+            if kind in LIVE_KINDS: self.live[r] = []
+            return r
         if op == 'placed':
             # a client-built type node (named by an Identifier) at a chosen address: an ordinary, distinct operand
             w(self.is_ident, a[1])
@@ -363,11 +384,21 @@ class Spec:
         if line in ('new', 'renew', 'stat') or line.startswith('cfg') or re.fullmatch(r'lexicon \d', line):
             return 'ok' if line != 'stat' else None
         if line.startswith('tree '):
+            if line.split()[1] in self.poisoned: return 'bad-op'
             hs = self.by_tag.get(line.split()[1], [])
             named = sorted(self.index[h] for h in hs if h in self.index)
             return 'size=%d nodes=%d named=%s' % (len(hs), len(hs), ','.join('n%d' % k for k in named) if named else '-')
         try:
             op, args = self.parse(line)
+            if op == 'grow':
+                # one more member (name, type) at the end of a growing container.  A node of a unification table that was first made from
+                # this container's live sequence has borrowed it: from now on that table holds a node filed under a key it no longer
+                # has, and nothing is specified about that table any more (other tables, and the node as an operand, are unaffected)
+                L = self.want(self.is_live, args[0]); self.want(self.is_name, args[1]); t = self.want(self.is_type, args[2])
+                if len(args) != 3: raise IllSorted()
+                self.poisoned.update(self.live_made.get(L, ()))
+                self.live[L].append(t)
+                return 'ok'
             if op in self.OBS:
                 r = self.observe(op, args)
                 return '-' if r is None else (r if isinstance(r, str) else self.name(r))
@@ -402,7 +433,7 @@ class Gen:
         self.spec = Spec(words, builtins)
         self.lines, self.expect = [], []
         self.pool = {k: [] for k in ('type', 'product', 'sum', 'forall', 'expr', 'name', 'ident', 'string', 'logo', 'link', 'cc',
-                                     'xfer', 'xlist', 'template', 'unqual')}
+                                     'xfer', 'xlist', 'template', 'unqual', 'live')}
         self.seen = set()
         self.requests = []          # (op, args) of every unification request emitted (for repeats)
         self.spellings = []
@@ -417,7 +448,8 @@ class Gen:
         if s.is_type(h):
             p['type'].append(h)
             if h.tag != 'qualifieds': p['unqual'].append(h)
-        if h.tag == 'products': p['product'].append(h)
+        if s.is_product(h): p['product'].append(h)
+        if s.is_live(h): p['live'].append(h)
         if h.tag == 'sums': p['sum'].append(h)
         if h.tag == 'foralls': p['forall'].append(h)
         if s.is_expr(h): p['expr'].append(h)
@@ -454,13 +486,13 @@ class Gen:
         self.stats[op] = self.stats.get(op, 0) + 1
         if op not in Spec.OBS:
             self.stats['_requests'] = self.stats.get('_requests', 0) + 1
-            if self.spec.created == before and op not in ('builtin', 'const', 'cxx_linkage', 'c_linkage', 'cxx_transfer'):
+            if self.spec.created == before and op not in ('builtin', 'const', 'cxx_linkage', 'c_linkage', 'cxx_transfer', 'grow'):
                 self.stats['_hits'] = self.stats.get('_hits', 0) + 1
         h = None
         if out.startswith('n'):
             h = self.spec.names[int(out[1:])]
             self.classify(h)
-        if remember and op not in Spec.OBS and op not in ('fresh', 'placed', 'unit', 'builtin', 'const', 'cxx_linkage', 'c_linkage', 'cxx_transfer'):
+        if remember and op not in Spec.OBS and op not in ('fresh', 'placed', 'grow', 'unit', 'builtin', 'const', 'cxx_linkage', 'c_linkage', 'cxx_transfer'):
             self.requests.append((op, list(args)))
         return h
 
@@ -547,9 +579,19 @@ class Gen:
         if op == 'literal_s': return self.emit(op, [P('type'), P('string')])
         if op == 'literal_w': return self.emit(op, [P('type'), self.word()])
         if op == 'fresh':
-            k = self.rng.choice([0, 0, 1, 2, 3, 4, 4, 5, 6])
+            k = self.rng.choice([0, 0, 1, 2, 3, 4, 4, 5, 6, 8, 8, 9])
             if k == 5: return self.emit(op, [5, P('name'), P('forall')])
             return self.emit(op, [k])
+        if op == 'grow':
+            # only containers whose live sequence no table node has borrowed yet (growth after that is `live_tail`'s business)
+            free = [l for l in self.pool['live'] if not self.spec.live_made.get(l) and len(self.spec.live[l]) < 6]
+            if not free: return self.emit('fresh', [self.rng.choice([8, 9])])
+            self.emit('grow', [self.rng.choice(free[-6:]), P('name'), P('type')], False)
+            return None
+        if op in ('product_live', 'sum_live'):
+            if not self.pool['live']: return None
+            l = self.rng.choice(self.pool['live'][-8:])
+            return self.emit(op, [l] + list(self.spec.live[l]))
         return None
 
     # -- ask again for an earlier key, possibly through an alternative spelling
@@ -577,6 +619,8 @@ class Gen:
             return self.emit('function_ex', [sq, t, e, x], False)
         swap = {'product_seq': 'product_wh', 'product_wh': 'product_seq', 'sum_seq': 'sum_wh', 'sum_wh': 'sum_seq'}
         if op in swap: return self.emit(swap[op], a, False)
+        if op in ('product_live', 'sum_live'):              # the same member types from a sequence / a Warehouse of the client's
+            return self.emit(op.split('_')[0] + self.rng.choice(['_seq', '_wh']), a[1:], False)
         if op in ('identifier_w', 'operator_w', 'linkage_w'):
             st = self.emit('string', [a[0]], False)
             return self.emit(op[:-1] + 's', [st], False)
@@ -613,7 +657,7 @@ class Gen:
     def sort_of(self, h):
         s = self.spec
         for sort, pred in (('xfer', s.is_xfer), ('cc', s.is_cc), ('link', s.is_link), ('logo', s.is_logo), ('string', s.is_string),
-                           ('product', lambda x: x.tag == 'products'), ('sum', lambda x: x.tag == 'sums'),
+                           ('product', s.is_product), ('sum', lambda x: x.tag == 'sums'),
                            ('forall', lambda x: x.tag == 'foralls'), ('ident', s.is_ident), ('name', s.is_name),
                            ('xlist', lambda x: x.tag == 'fresh' and x.key[2] == 4), ('template', lambda x: x.tag == 'fresh' and x.key[2] == 5),
                            ('type', s.is_type), ('expr', s.is_expr)):
@@ -691,7 +735,8 @@ class Gen:
         'C01': dict(pointer=8, reference=5, rvalue_reference=4, array=5, qualified=8, function=6, function_x=4, function_e=5,
                     function_ex=6, product_seq=8, product_wh=7, sum_seq=4, sum_wh=4, forall=3, ptr_to_member=4, tor=3,
                     as_type_id=3, as_type_expr=4, as_type_x=4, transfer=5, transfer_l=2, transfer_c=2,
-                    identifier_w=3, literal_w=3, linkage_w=3, calling_convention=3, symbol=1, fresh=4, string=1),
+                    identifier_w=3, literal_w=3, linkage_w=3, calling_convention=3, symbol=1, fresh=4, string=1,
+                    grow=3, product_live=2, sum_live=1),
         'C04': dict(string=6, identifier_s=6, identifier_w=10, operator_s=3, operator_w=5, suffix=4, conversion=5, ctor=4, dtor=4,
                     guide_name=3, logogram=5, template_id=5, symbol=7, label=5, this=5, literal_s=4, literal_w=6, linkage_w=6,
                     linkage_s=4, calling_convention=6, transfer=4, transfer_l=2, transfer_c=2, as_type_id=4,
@@ -970,6 +1015,74 @@ def fresh_operand_sweep(g, m):
     g.stats['_fresh_operands_used_at_once'] = g.stats.get('_fresh_operands_used_at_once', 0) + len(fresh)
 
 
+def nesting_sweep(g, rounds):
+    """Every constructor applied to its own earlier result, three deep, with the other arguments unchanged -- f(f(f(a, b), b), b) -- then
+    chains that alternate constructors, then every request of a chain again, innermost last.  An argument that happens to be a node the
+    same constructor made (with the very same transfer, bound, source...) is one more node: each level is a different request."""
+    P, rng, s = g.pick, g.rng, g.spec
+    g.prologue()
+    for _ in range(rounds):
+        t, t2, e, pr = P('unqual'), P('type'), P('expr'), P('product')
+        x_nat = g.natural_xfer()
+        xs = [x for x in g.pool['xfer'] if s.xfer_value(x) != (b'C++', b'')]
+        x = rng.choice(xs) if xs and rng.random() < 0.7 else g.emit('transfer', [g.emit('linkage_w', [b'C']), g.emit('calling_convention', [g.word() or b'cc'])])
+        if x is None or t is None or t2 is None or e is None or pr is None: continue
+        steps = [('pointer', lambda a: [a]), ('reference', lambda a: [a]), ('rvalue_reference', lambda a: [a]),
+                 ('array', lambda a: [a, e]), ('array', lambda a: [t2, a]), ('ptr_to_member', lambda a: [a, t2]), ('ptr_to_member', lambda a: [t2, a]),
+                 ('function', lambda a: [pr, a]), ('function_x', lambda a: [pr, a, x]), ('function_e', lambda a: [pr, a, e]),
+                 ('function_e', lambda a: [pr, t2, a]), ('function_ex', lambda a: [pr, a, e, x]), ('forall', lambda a: [pr, a]),
+                 ('as_type_expr', lambda a: [a]), ('as_type_x', lambda a: [a, x]), ('as_type_x', lambda a: [a, x_nat]),
+                 ('product_seq', lambda a: [a]), ('product_wh', lambda a: [a, t2]), ('sum_seq', lambda a: [a]), ('sum_wh', lambda a: [t2, a]),
+                 ('qualified', lambda a: [2, a]), ('qualified', lambda a: [1, a])]
+        asked = []
+        for op, mk in steps:
+            a = t
+            for depth in range(3):
+                args = mk(a)
+                h = g.emit(op, args)
+                if h is None: break
+                asked.append((op, args))
+                a = h
+        for _ in range(6):                                   # constructors alternating along one chain
+            a = t
+            for depth in range(5):
+                op, mk = rng.choice(steps)
+                args = mk(a)
+                h = g.emit(op, args)
+                if h is None: break
+                asked.append((op, args))
+                a = h
+        for op, args in reversed(asked):
+            g.emit(op, args, False)
+        g.stats['_nested_requests'] = g.stats.get('_nested_requests', 0) + len(asked)
+
+
+def live_tail(g, tag):
+    """The last thing a Lexicon sees: a client's growing container (parameter list / class scope) whose own, live member sequence is handed
+    to get_product (tag = 'products') or get_sum ('sums') and FIRST makes a node there -- which keeps referring to that sequence -- while
+    the other constructor is asked for the same member types through a Warehouse, a sequence of the client's and the live sequence.  Then
+    the container grows.  Nothing is specified any more about table `tag` (it holds a node filed under a key it no longer has; the
+    specification refuses every later request for it), but everything else is: the other table's answers for the old member types, for the
+    new ones, the functions and foralls whose source is the container's type node or the borrowed node."""
+    P, rng = g.pick, g.rng
+    mine, other = ('product', 'sum') if tag == 'products' else ('sum', 'product')
+    for kind in (8, 9):
+        L = g.emit('fresh', [kind])
+        a, b, c = g.emit('fresh', [0]), g.emit('fresh', [2]), P('type')
+        for t in (a, b): g.emit('grow', [L, P('name'), t], False)
+        borrowed = g.emit(mine + '_live', [L, a, b])                 # a, b are brand-new types: this request makes the node
+        before = [(other + '_wh', [a, b]), (other + '_seq', [a, b]), (other + '_live', [L, a, b]), (other + '_wh', [a]), (other + '_seq', [b, a]),
+                  ('function', [L, c]), ('forall', [L, c]), ('function_e', [L, c, g.emit('const', ['false'], False)])]
+        if tag == 'products': before += [('function', [borrowed, c]), ('forall', [borrowed, a])]
+        for op, args in before: g.emit(op, args, False)
+        g.emit('grow', [L, P('name'), c], False)                     # from here on table `tag` is unspecified
+        after = before[:2] + before[3:] + [(other + '_wh', [a, b, c]), (other + '_live', [L, a, b, c]), (other + '_seq', [a, b, c]),
+                                           ('function_x', [L, c, g.natural_xfer()])]
+        rng.shuffle(after)
+        for op, args in after: g.emit(op, args, False)
+        g.stats['_live_sequences_grown_after_being_borrowed'] = g.stats.get('_live_sequences_grown_after_being_borrowed', 0) + 1
+
+
 def last_requests(g):
     """What a Lexicon about to be destroyed is asked last: every constructor of the profile once more, and a re-qualification."""
     ops = list(g.WEIGHTS[g.profile])
@@ -1026,7 +1139,12 @@ def build_histories(pid, tier, seed, words, builtins):
             mix = [g.emit('builtin', [rng.choice(builtins)]) for _ in range(3)] + [g.emit('pointer', [g.pick('type')]), g.emit('fresh', [0])] + placed[:3]
             rng.shuffle(mix)
             qualifier_mix(g, [t for t in mix if t is not None and t.tag != 'qualifieds'], 6)
+        if pid == 'C01' and i in (1, 2):
+            nesting_sweep(g, 3 if tier == 'quick' else 12)
         g.run(nreq)
+        if pid == 'C01' and i in (1, 3):
+            live_tail(g, 'products' if i == 1 else 'sums')
+            g.run(g.stats.get('_requests', 0) + 150)
         hs.append(g)
     # Lexicons constructed one after the other in ONE place, node storage recycled: short-lived ones, each followed by a successor whose
     # first requests put more brand-new operands than the predecessor had nodes where those nodes were
